@@ -24,9 +24,10 @@ META = {
         "non-canonically re-zero-coded, truncated, extended and bit-flipped datagrams x inspection orders."),
     "trusted_base": [
         "struct.Struct.pack: exact built-in model; template lookup by name: external",
-        "_parse_msg_num: assumed contract (reads 1..4 bytes), checked against every template in the bounded tier; zero-coded branch of "
-        "_parse_message_header, parse_message_body, _parse_var: bounded tier only (template walk, C03 prefix properties)",
-        "canonical zero-coding = fixed point of zero_code_compress . zero_code_expand (C03's functions)",
+        "_parse_msg_num: assumed contract (reads 1..4 bytes), checked against every template in the bounded tier; _parse_var (text "
+        "heuristics): bounded tier only; in the zero-coded branch of _parse_message_header zero_code_expand is an external (C03's subject)",
+        "canonical zero-coding in the bounded tier: decided by the driver's own zero-coder (every maximal zero run as (00 FF)* 00 n), not by "
+        "the library's compressor",
     ],
 }
 
